@@ -333,17 +333,19 @@ theorem pod_write_sound (c : Ctl) (v : Pod) (c' : Ctl) (hph : v.phase ≠ "F") (
       by_cases h1 : x.ns = tns
       · right; intro h2; exact hne ⟨(hx.1.symm.trans h1).symm, (hx.2.symm.trans h2).symm⟩
       · left; exact h1
-  have hev : ∃ old kind, runEvents c1 [podEvOf c v] = ((podEvent c1 old v kind).1, (podEvent c1 old v kind).2 ++ []) ∧
+  have hev : ∃ (old : Option Pod) (kind : PodEvKind) (kx : List String), runEvents c1 [podEvOf c v] =
+        ((podEvent c1 old v kind).1, kx.map Ev.replay ++ (podEvent c1 old v kind).2 ++ []) ∧
       kind ≠ .del ∧ (∀ o, old = some o → findPod c.pods v.ns v.name = some o) := by
     unfold podEvOf
     cases hfo : findPod c.pods v.ns v.name with
     | none =>
-      refine ⟨none, .add, ?_, by simp, by simp⟩
+      refine ⟨none, .add, [], ?_, by simp, by simp⟩
       simp [runEvents, handle, hfind]
     | some o =>
-      refine ⟨some o, .upd, ?_, by simp, by simp⟩
-      simp [runEvents, handle, hfind]
-  obtain ⟨old, kind, hrun, hkind, hold⟩ := hev
+      obtain ⟨kx, hkx, _⟩ := idReplays_eq c1 o v
+      refine ⟨some o, .upd, kx, ?_, by simp, by simp⟩
+      simp [runEvents, handle, hfind, hkx]
+  obtain ⟨old, kind, kx, hrun, hkind, hold⟩ := hev
   have hnr : NoRecompute c1 old v := by
     cases old with
     | none => exact Or.inl rfl
@@ -352,16 +354,16 @@ theorem pod_write_sound (c : Ctl) (v : Pod) (c' : Ctl) (hph : v.phase ≠ "F") (
       unfold PodGood at hgood
       rw [hfo] at hgood
       exact hgood.1
-  obtain ⟨ks, hR, heff, _, herased⟩ := podEvent_eff c1 old v kind hnr
-  have hrunAll : runAll c1 [podEvOf c v] = (runEvents (podEvent c1 old v kind).1 (ks.map Ev.replay)).1 := by
+  obtain ⟨ks0, hR0, heff, _, herased⟩ := podEvent_eff c1 old v kind hnr
+  have hrunAll : runAll c1 [podEvOf c v] = (runEvents (podEvent c1 old v kind).1 ((kx ++ ks0).map Ev.replay)).1 := by
     show (runEvents (runEvents c1 _).1 (runEvents c1 _).2).1 = _
     rw [hrun]
     simp only [List.append_nil]
-    rw [hR]
+    rw [List.map_append, hR0]
   show ResyncSound (runAll c1 _)
   rw [hrunAll]
   generalize hc2 : (podEvent c1 old v kind).1 = c2 at *
-  apply replays_sound ks c2 _ (hwf.of_stores heff.slices heff.svcs heff.pods)
+  apply replays_sound (kx ++ ks0) c2 _ (hwf.of_stores heff.slices heff.svcs heff.pods)
   intro a k h
   have h1 : setContains c.resync a k = true := heff.sub a k h
   obtain ⟨x, hx, hxk, hxa⟩ := hs a k h1
@@ -561,7 +563,7 @@ theorem pod_label_edit_sound (c : Ctl) (v : Pod) (c' : Ctl) (hph : v.phase ≠ "
   | none => rw [hfo] at hgood; exact absurd hgood (fun h => h)
   | some o =>
     rw [hfo] at hgood
-    obtain ⟨hch, _, _, hip, hok, hcached, hnowait, _, hoip⟩ := hgood
+    obtain ⟨hch, hsa, hnode, hip, hok, hcached, hnowait, _, hoip⟩ := hgood
     have hrun : runAll c1 [podEvOf c v] = recompute c1 v := by
       have hev : podEvOf c v = Ev.podUpd o v := by unfold podEvOf; rw [hfo]
       have htw : takeWaiting c1 v.ip = (c1, []) := by
@@ -576,7 +578,10 @@ theorem pod_label_edit_sound (c : Ctl) (v : Pod) (c' : Ctl) (hph : v.phase ≠ "
         rw [if_pos this, hch]
         simp
       rw [hev]
-      simp [runAll, runEvents, handle, hfind, hpe]
+      have hid : idReplays c1 o v = [] := by
+        unfold idReplays
+        simp [hsa, hnode]
+      simp [runAll, runEvents, handle, hfind, hpe, hid]
     show ResyncSound (runAll c1 _)
     rw [hrun, recompute_eq]
     apply recompute_fold_sound
